@@ -4,6 +4,7 @@ import (
 	"sync"
 
 	"github.com/jech/galene/group"
+	"github.com/jech/galene/ice"
 	"github.com/jech/galene/rtptime"
 	"github.com/jech/galene/token"
 
@@ -23,6 +24,7 @@ func processSetup() {
 func resetGlobals(r *simrt.Run) {
 	rtptime.SimSetEpoch()
 	group.VerifReset()
+	ice.VerifReset()
 	group.Directory = "/sim/groups"
 	group.DataDirectory = "/sim/data"
 	token.VerifReset("/sim/data/var/tokens.jsonl")
